@@ -3,26 +3,25 @@ and which earlier captions each addition closes.
 
 P[n] over every history of three additions drawn from: append a caption / append None / append a caption without nodes /
 extend by two captions (the parts of one multi-position caption) / extend by two captions with a None and an empty one
-between them.  `_update_last_batch` is a recording stub (its own contract: for any batch length, C06).
+between them.  Nothing is stubbed: every caption is added with a start of its own and without an end, so that what an addition closes
+shows in the captions themselves (`_update_last_batch`, which does the closing, has its own contract for any batch length, C06).
 
   * the list holds exactly the captions that have nodes, in the order they were added, each once; None and captions
     without nodes are dropped and change nothing - neither the list nor what the next addition closes;
-  * every addition that keeps something hands `_update_last_batch` - once, before the list grows - ALL the captions kept
-    by the previous such addition (the parts of a multi-position caption end together) and the kept captions of this
-    one, first one first (its start is the instant the previous ones end).
+  * every addition that keeps something ends ALL the captions kept by the previous such addition (the parts of a
+    multi-position caption end together) at the start of its own first caption, and touches nothing older.
 Precondition (from the call sites: `create_and_store` extends by the captions of a non-empty buffer, of which at least one
 has a node): an `extend` keeps at least one caption.
 """
 from pycaption.base import CaptionNode
 from pycaption.scc.specialized_collections import PreCaption, TimingCorrectingCaptionList as TL
-from pyvc.verify import args_by_name as N
 
 OPS = ["append kept", "append None", "append empty", "extend two", "extend two and dropped ones"]
 
 
-def _cap(tag, nodes=True):
+def _cap(tag, start, nodes=True):
     c_ = PreCaption()
-    c_.start, c_.end = 10 ** 6, 0
+    c_.start, c_.end = start, 0
     if nodes:
         c_.nodes.append(CaptionNode.create_text(tag))
     return c_
@@ -31,38 +30,29 @@ def _cap(tag, nodes=True):
 def list_skeleton(c):
     ops = [c.pick(f"addition{k + 1}", OPS) for k in range(3)]
     tl = TL()
-    log = []
-
-    def stub(interp, fn, a, kw):
-        x = N(fn, a, kw)
-        log.append((tuple(x["batch"]), tuple(x["new_captions"]), list(tl)))
-        return None
-    c.interp.contracts["pycaption.scc.specialized_collections:TimingCorrectingCaptionList._update_last_batch"] = stub
-    kept_all, prev_kept, expected_calls = [], (), []
+    kept_all, prev_kept, closed_at = [], (), {}
     for k, op in enumerate(ops):
-        before_calls = len(log)
+        t0 = 10 ** 6 * (k + 1)
         if op.startswith("append"):
-            item = {"append kept": _cap(f"a{k}"), "append None": None, "append empty": _cap(f"e{k}", nodes=False)}[op]
+            item = {"append kept": _cap(f"a{k}", t0), "append None": None, "append empty": _cap(f"e{k}", t0, nodes=False)}[op]
             c.call(TL.append, tl, item, compare=False)
             kept = [item] if op == "append kept" else []
         else:
-            x, y = _cap(f"x{k}"), _cap(f"y{k}")
-            items = [x, y] if op == "extend two" else [x, None, _cap(f"e{k}", nodes=False), y]
+            x, y = _cap(f"x{k}", t0), _cap(f"y{k}", t0)
+            items = [x, y] if op == "extend two" else [x, None, _cap(f"e{k}", t0, nodes=False), y]
             c.call(TL.extend, tl, items, compare=False)
             kept = [x, y]
         if kept:
-            calls = log[before_calls:]
-            c.ensure(f"addition{k + 1}/closes_all_captions_of_the_previous_addition_once_before_the_list_grows",
-                     len(calls) == 1 and len(calls[0][0]) == len(prev_kept) and all(p_ is q_ for p_, q_ in zip(calls[0][0], prev_kept))
-                     and len(calls[0][1]) >= 1 and calls[0][1][0] is kept[0]
-                     and len(calls[0][2]) == len(kept_all))
+            for p_ in prev_kept:
+                closed_at[id(p_)] = t0
             prev_kept = tuple(kept)
             kept_all += kept
-        else:
-            # a dropped item may be shown to the helper (which ignores it) but must not replace what the next addition closes
-            c.ensure(f"addition{k + 1}/a_dropped_item_closes_nothing", all(not [n_ for n_ in call[1] if n_ is not None and n_.nodes] for call in log[before_calls:]))
+        # every caption that is still open ends exactly when the next kept addition begins: ALL parts of the previous
+        # addition, nothing older touched again, nothing closed by a dropped item
+        c.ensure(f"addition{k + 1}/all_parts_of_the_previous_caption_end_where_this_one_starts_and_nothing_else_changes",
+                 all(x_.end == closed_at.get(id(x_), 0) for x_ in kept_all))
         c.ensure(f"addition{k + 1}/list_is_the_kept_captions_in_order", len(tl) == len(kept_all) and all(p_ is q_ for p_, q_ in zip(tl, kept_all)))
 
 
 def prove_list_skeleton(ctx):
-    ctx.prove("scc.TimingCorrectingCaptionList.append+extend", list_skeleton, functions=[TL.append, TL.extend], crosscheck=False)
+    ctx.prove("scc.TimingCorrectingCaptionList.append+extend", list_skeleton, functions=[TL.append, TL.extend, TL._update_last_batch] if hasattr(TL, "_update_last_batch") else [TL.append, TL.extend], crosscheck=False)
